@@ -89,6 +89,10 @@ def run(ctx):
     ctx.note("observed_outcomes", r["per_outcome"])
     ctx.note("requests_per_endpoint", r["per_ep"])
     ctx.note("skipped_endpoints", r.get("skipped_endpoints") or {})
+    ctx.note("arrow_transport_retries", r.get("transport_retries", 0))
+    ctx.note("arrow_unjudged_requests", r.get("unjudged_requests", 0))
+    if r.get("unjudged_requests", 0) > r["requests"] // 100:
+        raise InfraError("%d Arrow requests could not be judged (transport errors)" % r["unjudged_requests"])
     ctx.note("distinct_config_target_pairs", r["distinct_forward_targets_seen"])
     ctx.note("exhaustive", True)
     ctx.note("rule", "every (entry node type x sorted multiset of <=%d peer types) x endpoint x client marker "
